@@ -191,14 +191,37 @@ static const char *const observers[] = {
     "", "a..b", "[", "a]", "a[", "a[1", "a{", "a}", "a=1", "a#", ".=", "[0+]",
     "[+]", "a[+]", "a[0+]", "[0]x", "0", "-a", "a\\", "a{}x", "a.b]",
     "[0]]", "a[]b", "zz]", "{}{}", "[][0]", "+", "a.0", "a,b", "a/b",
+    /* subscripts that do not fit an int: no element has them */
+    "[2147483648]", "[4294967296]", "[4294967297]", "a[4294967297]",
+    "[18446744073709551616]", "[99999999999999999999]", "b[0][4294967296]",
 };
 #define NOBS ((int)(sizeof(observers) / sizeof(observers[0])))
 
 static const char *const bad_deletes[] = {
     "", "a..b", "[", "a]", "a[", "[0+]", "[+]", "a=1", "a#", "a{}x", "[0]]",
-    "a[+]", "a{",
+    "a[+]", "a{", "[4294967296]", "a[4294967297]", "[18446744073709551617]",
 };
 #define NBADDEL ((int)(sizeof(bad_deletes) / sizeof(bad_deletes[0])))
+
+/* sets through a subscript that does not fit an int: refused, no effect
+   (EINVAL, ENOENT and ENOMEM are accepted: which one is not documented) */
+static const char *const bad_sets[] = {
+    "[4294967296]=x", "[4294967297]=x", "a[4294967296]=x", "[4294967296+]=x",
+    "[18446744073709551616]=x", "b[0][4294967297]#",
+};
+#define NBADSET ((int)(sizeof(bad_sets) / sizeof(bad_sets[0])))
+
+/* does the descriptor hold a run of ten or more digits? */
+static int has_huge_index(const char *s)
+{
+    int run = 0;
+    for (; *s != '\0'; ++s) {
+	run = isdigit((unsigned char)*s) ? run + 1 : 0;
+	if (run >= 10)
+	    return 1;
+    }
+    return 0;
+}
 
 static const char *ename(int e)
 {
@@ -1296,20 +1319,41 @@ static void run_hist(int tier, const int *ops, int n, vf_result *r)
 
     if (r->status == VF_OK) {
 	/* observers */
-	for (int i = 0; i < NOBS; ++i)
+	for (int i = 0; i < NOBS; ++i) {
+	    int keep = g_errno_loose;
+	    if (has_huge_index(observers[i]))
+		g_errno_loose = 1;
 	    observe(r, root, &mroot, observers[i], &got, &want);
+	    g_errno_loose = keep;
+	}
 	/* deletes that must fail and change nothing */
 	for (int i = 0; i < NBADDEL; ++i) {
 	    int merr, mrv, rv, e;
+	    int keep = g_errno_loose;
 	    errno = 0;
 	    rv = vnaproperty_delete(&root, "%s", bad_deletes[i]);
 	    e = errno;
 	    mrv = pm_delete(&mroot, bad_deletes[i], &merr);
 	    if (mrv != -1)
 		abort();
+	    if (has_huge_index(bad_deletes[i]))
+		g_errno_loose = 1;
 	    check_rv(r, "vnaproperty_delete", bad_deletes[i], rv, e, mrv,
 		    merr);
+	    g_errno_loose = keep;
 	    ++r->transitions;
+	}
+	/* sets that must fail and change nothing */
+	for (int i = 0; i < NBADSET; ++i) {
+	    int rv, e;
+	    errno = 0;
+	    rv = vnaproperty_set(&root, "%s", bad_sets[i]);
+	    e = errno;
+	    ++r->transitions;
+	    if (rv != -1 || (e != EINVAL && e != ENOENT && e != ENOMEM))
+		vf_fail(r, "result:vnaproperty_set", "vnaproperty_set('%s') "
+			"returned %d %s: a subscript beyond every list must "
+			"be refused", pm_show(bad_sets[i]), rv, ename(e));
 	}
 	/* nothing above may have changed the tree */
 	if (same_tree(root, mroot, &got, &want, why, sizeof(why)) != 0)
